@@ -438,7 +438,11 @@ def simplify_unitary(expr: e.Expr, t_name: str,
 
     # evaluate the generated deltas if requested
     if evaluate_deltas:
-        res = e.Expr(func.evaluate_deltas(res.sympy), **res.assumptions)
+        res = e.Expr(
+            func.evaluate_deltas(res.sympy,
+                                 target_idx=res.provided_target_idx),
+            **res.assumptions
+        )
     return res
 
 
